@@ -49,6 +49,10 @@ func execMAL(op string, a []sx) sx {
 				if !dst.intact() {
 					return T("clobber")
 				}
+				// also on the error path: items stored past the end of a slice's backing array leave len > cap behind
+				if l, cp, bad := sliceOverrun(dst.v, 0); bad {
+					return T("overrun", I(int64(l)), I(int64(cp)))
+				}
 				if err != nil {
 					return T("err")
 				}
@@ -119,6 +123,36 @@ var nastyVarints = [][]byte{
 }
 
 func genMAL(c *ctx) {
+	// array block counts that the slice LENGTH cannot take after earlier blocks (Len+count overflows, or the count is
+	// MinInt64): rejected before anything is allocated, so these are safe to run in every tier - unlike counts that fit
+	// but are not backed by input (D14)
+	for _, kind := range []string{"long", "string"} {
+		item, isch, gt := refVarint(-1), sPrim("long"), tInt(64)
+		if kind == "string" {
+			item, isch, gt = append(refVarint(2), 'h', 'i'), sPrim("string"), tString
+		}
+		rep := func(n int) []byte {
+			var out []byte
+			for i := 0; i < n; i++ {
+				out = append(out, item...)
+			}
+			return out
+		}
+		ty := T("struct", hs("H"), hs(""), T("field", hs("A"), A("true"), hs("a"), hs(""), T("slice", gt)))
+		sch := schemaSx(sRecord("holder", avro.SchemaRecordField{Name: "a", Type: sArray(isch)}))
+		for _, first := range []int{1, 2, 5} {
+			for _, big := range []int64{1<<63 - 1, 1<<63 - 2, (1<<63 - 1) - int64(first) + 1, -1 << 63, -(1<<63 - 1)} {
+				b := append(refVarint(int64(first)), rep(first)...)
+				b = append(b, refVarint(big)...)
+				if big < 0 {
+					b = append(b, refVarint(int64(3*len(item)))...)
+				}
+				b = append(b, rep(3)...)
+				b = append(b, refVarint(0)...)
+				c.emit(T("mal-read", ty, sch, H(b), T("tag", A("array-count-overflows-length"))))
+			}
+		}
+	}
 	bigBudget := c.scale(12, 200) // counts of 2^21: tens of megabytes each
 	fatalBudget := c.scale(0, 6)  // huge declared counts are fatal (out of memory) or loop for hours: only a few per run, isolated by ./check
 	n := c.scale(60, 2000)
